@@ -19,14 +19,24 @@ import (
 
 // tcfg is one limiter configuration.
 type tcfg struct {
-	Sliding    bool `json:"sliding"`
-	VStore     bool `json:"vstore"` // injected storage instead of the built-in memory store
-	Max        int  `json:"max"`
-	Dyn        bool `json:"maxfunc"` // MaxFunc installed: reads X-Max, falls back to Max
-	E          int  `json:"expiration_s"`
-	SkipFailed bool `json:"skip_failed,omitempty"`
-	SkipOK     bool `json:"skip_successful,omitempty"`
-	NKeys      int  `json:"keys"`
+	Sliding bool `json:"sliding"`
+	VStore  bool `json:"vstore"` // injected storage instead of the built-in memory store
+	Max     int  `json:"max"`
+	Dyn     bool `json:"maxfunc"` // MaxFunc installed: reads X-Max, falls back to Max
+	E       int  `json:"expiration_s"`
+	// ExpNs, when set, is the configured Expiration in nanoseconds (subsecond-expiration family:
+	// values that are not whole seconds); E is then meaningless.
+	ExpNs      int64 `json:"expiration_ns,omitempty"`
+	SkipFailed bool  `json:"skip_failed,omitempty"`
+	SkipOK     bool  `json:"skip_successful,omitempty"`
+	NKeys      int   `json:"keys"`
+}
+
+func (c tcfg) expiration() time.Duration {
+	if c.ExpNs > 0 {
+		return time.Duration(c.ExpNs)
+	}
+	return time.Duration(c.E) * time.Second
 }
 
 func (c tcfg) algo() string {
@@ -45,6 +55,9 @@ func (c tcfg) backend() string {
 
 func (c tcfg) String() string {
 	s := fmt.Sprintf("%s %s Max=%d E=%ds", c.algo(), c.backend(), c.Max, c.E)
+	if c.ExpNs > 0 {
+		s = fmt.Sprintf("%s %s Max=%d Expiration=%s", c.algo(), c.backend(), c.Max, time.Duration(c.ExpNs))
+	}
 	if c.Dyn {
 		s += " MaxFunc"
 	}
@@ -59,7 +72,7 @@ func (c tcfg) String() string {
 
 // appKey identifies configurations that can share one app (memory backend only, see memRig).
 func (c tcfg) appKey() string {
-	return fmt.Sprintf("%v/%d/%d/%v/%v", c.Sliding, c.Max, c.E, c.SkipFailed, c.SkipOK)
+	return fmt.Sprintf("%v/%d/%d/%d/%v/%v", c.Sliding, c.Max, c.E, c.ExpNs, c.SkipFailed, c.SkipOK)
 }
 
 // tstep is one request of a history.
@@ -164,7 +177,7 @@ func newRig(cfg tcfg) *rig {
 	rg := &rig{cfg: cfg}
 	lc := flim.Config{
 		Max:                    cfg.Max,
-		Expiration:             time.Duration(cfg.E) * time.Second,
+		Expiration:             cfg.expiration(),
 		SkipFailedRequests:     cfg.SkipFailed,
 		SkipSuccessfulRequests: cfg.SkipOK,
 		KeyGenerator: func(c fiber.Ctx) string {
